@@ -406,7 +406,12 @@ class Program:
         """All AST nodes of f's body (nested function bodies excluded), cached."""
         c = self._nodes_cache.get(f.qualname)
         if c is None:
-            c = [n for st in f.body for n in walk_no_nested(st)]
+            c = []
+            for st in f.body:
+                if isinstance(st, (ast.FunctionDef, ast.AsyncFunctionDef, ast.ClassDef)):
+                    c.append(st)   # nested definition: its body belongs to the nested function
+                else:
+                    c.extend(walk_no_nested(st))
             self._nodes_cache[f.qualname] = c
         return c
 
